@@ -283,10 +283,10 @@ Definition is_supported (r : reg) : bool :=
   | _ => false
   end.
 
-(* From<SupportedRegister> for Register: every variant except EIP *)
+(* From<SupportedRegister> for Register: total on SupportedRegister *)
 Definition sup_to_iced_ok (r : reg) : bool :=
   match r with
-  | RIP | RAX | RBX | RCX | RDX | RSI | RDI | RSP | RBP | R8 | R9 | R10 | R11 | R12 | R13 | R14 | R15 | EAX | EBX | ECX | EDX | ESI | EDI | ESP | EBP | R8D | R9D | R10D | R11D | R12D | R13D | R14D | R15D | AX | BX | CX | DX | SI | DI | SP | BP | R8W | R9W | R10W | R11W | R12W | R13W | R14W | R15W | AL | BL | CL | DL | SIL | DIL | SPL | BPL | R8L | R9L | R10L | R11L | R12L | R13L | R14L | R15L | AH | BH | CH | DH | XMM0 | XMM1 | XMM2 | XMM3 | XMM4 | XMM5 | XMM6 | XMM7 | XMM8 | XMM9 | XMM10 | XMM11 | XMM12 | XMM13 | XMM14 | XMM15 => true
+  | RIP | EIP | RAX | RBX | RCX | RDX | RSI | RDI | RSP | RBP | R8 | R9 | R10 | R11 | R12 | R13 | R14 | R15 | EAX | EBX | ECX | EDX | ESI | EDI | ESP | EBP | R8D | R9D | R10D | R11D | R12D | R13D | R14D | R15D | AX | BX | CX | DX | SI | DI | SP | BP | R8W | R9W | R10W | R11W | R12W | R13W | R14W | R15W | AL | BL | CL | DL | SIL | DIL | SPL | BPL | R8L | R9L | R10L | R11L | R12L | R13L | R14L | R15L | AH | BH | CH | DH | XMM0 | XMM1 | XMM2 | XMM3 | XMM4 | XMM5 | XMM6 | XMM7 | XMM8 | XMM9 | XMM10 | XMM11 | XMM12 | XMM13 | XMM14 | XMM15 => true
   | _ => false
   end.
 
